@@ -67,10 +67,10 @@ func NewIndex(pk *packages.Package) *Index {
 	return ix
 }
 
-func (ix *Index) VarInit(o types.Object) ast.Expr        { return ix.varInit[o] }
-func (ix *Index) FuncDecl(o types.Object) *ast.FuncDecl  { return ix.funcDecl[o] }
-func (ix *Index) Info() *types.Info                      { return ix.Pk.TypesInfo }
-func (ix *Index) Lookup(name string) types.Object        { return ix.Pk.Types.Scope().Lookup(name) }
+func (ix *Index) VarInit(o types.Object) ast.Expr       { return ix.varInit[o] }
+func (ix *Index) FuncDecl(o types.Object) *ast.FuncDecl { return ix.funcDecl[o] }
+func (ix *Index) Info() *types.Info                     { return ix.Pk.TypesInfo }
+func (ix *Index) Lookup(name string) types.Object       { return ix.Pk.Types.Scope().Lookup(name) }
 
 // Method resolves the declared method name on the package-level type typeName
 // (value or pointer receiver).
